@@ -731,7 +731,7 @@ def correspond(ctx, res):
         for h in CORPUS:
             hists.append(h)
             tags.append("corpus")
-        n = ctx.n(1000, 40000)
+        n = ctx.n(1000, 15000)
         for i in range(n):
             fam = FAMILIES[i % len(FAMILIES)]
             hists.append(gen_history(ctx.rng, impl, fam))
